@@ -9,6 +9,8 @@ import (
 	"os"
 	"os/exec"
 	"path/filepath"
+	"regexp"
+	"strconv"
 	"strings"
 	"sync/atomic"
 	"syscall"
@@ -199,6 +201,24 @@ func c14Spec(c *ctx, text string) {
 		g, err := east.Parse(fileName, strings.NewReader(text))
 		return g == nil, err
 	})
+}
+
+var reCount = regexp.MustCompile(`\{(\d+)(?:,(\d*))?\}`)
+
+// c14CountSig: input-side signature of open finding D28 - the pattern has a repetition count that an int can hold but
+// whose automaton (the operand copied that many times) cannot be held in memory: >= 2^24 here.
+func c14CountSig(p string) string {
+	for _, m := range reCount.FindAllStringSubmatch(p, -1) {
+		for _, d := range m[1:] {
+			if len(d) > 19 {
+				continue // does not fit an int: must be rejected, not part of the finding
+			}
+			if v, err := strconv.ParseUint(d, 10, 64); err == nil && v >= 1<<24 && v <= 1<<63-1 {
+				return "repetition-count-needs-more-memory-than-there-is"
+			}
+		}
+	}
+	return ""
 }
 
 // c14GenerateAll makes c14Spec drive every accepted specification through the generator (set by the named families).
@@ -586,6 +606,22 @@ func runC14(c *ctx) {
 			c14Pattern(c, t.print())
 		}
 	}
+	// --- repetition counts: beyond what an int can hold, and beyond what memory can hold (child process, capped memory)
+	if c.shard == 1%c.of {
+		for _, p := range []string{"a{1,200}", "[a-c]{300}x", "a{9223372036854775808}", "a{1,9223372036854775808}", "a{18446744073709551617,}", "(ab){99999999999999999999999}",
+			"a{4294967297}", "(ab){1,268435456}", "a{0,}{4294967296}"} {
+			c.eval()
+			c.guard("pattern-probe " + p)
+			st, _, out := patProbe(p)
+			c.count("memory_capped_pattern_probes_"+st, 1)
+			switch st {
+			case "oom", "crash":
+				c.violate(violation{Sig: c14CountSig(p), Case: "pattern-probe", Input: p, Observed: "the process died (" + st + "): " + out, Expected: "a result or an error value"})
+			case "timeout":
+				c.inconclusive("pattern probe timed out")
+			}
+		}
+	}
 	// --- CLI
 	if c.shard == 0 {
 		c14CLI(c)
@@ -734,6 +770,77 @@ func init() {
 		t0 := time.Now()
 		_, perr := spec.Parse(fileName, bytes.NewReader(b))
 		fmt.Printf("spec.Parse: %v err=%v\n", time.Since(t0), perr != nil)
+		return 0
+	}
+}
+
+func init() {
+	// vh aux c14pat <pattern>: both pattern front ends on one pattern, with timing (run under ulimit -v).
+	auxCommands["c14pat"] = func(args []string) int {
+		t0 := time.Now()
+		n, err := nfa.Parse(args[0])
+		fmt.Printf("nfa.Parse: %v err=%v nil=%v\n", time.Since(t0), err, n == nil)
+		t0 = time.Now()
+		a, err := rast.Parse(args[0])
+		fmt.Printf("ast.Parse: %v err=%v nil=%v\n", time.Since(t0), err, a == nil)
+		return 0
+	}
+}
+
+// ---------------------------------------------------------------- pattern probe in a memory-capped child process
+
+// patProbe runs both pattern front ends on one pattern in a child process whose address space is capped (1.5 GB), so
+// that a pattern whose automaton cannot be held cannot take the machine down. status: "rejected" | "accepted" |
+// "oom" (the runtime's 'fatal error: out of memory') | "crash" | "timeout". For "accepted", bits[k] tells whether the
+// automaton accepts a^k (k = 0..69).
+func patProbe(pattern string) (status, bits, output string) {
+	self, _ := os.Executable()
+	cmd := exec.Command("sh", "-c", "ulimit -v 1500000; exec \"$0\" aux patprobe \"$1\"", self, pattern)
+	var ob bytes.Buffer
+	cmd.Stdout, cmd.Stderr = &ob, &ob
+	done := make(chan error, 1)
+	if err := cmd.Start(); err != nil {
+		return "crash", "", err.Error()
+	}
+	go func() { done <- cmd.Wait() }()
+	select {
+	case <-done:
+	case <-time.After(120 * time.Second):
+		_ = cmd.Process.Kill()
+		<-done
+		return "timeout", "", firstLines(ob.String(), 6)
+	}
+	out := ob.String()
+	switch {
+	case strings.Contains(out, "out of memory"):
+		return "oom", "", firstLines(out, 4)
+	case strings.Contains(out, "PROBE rejected"):
+		return "rejected", "", firstLines(out, 3)
+	case strings.Contains(out, "PROBE accepted "):
+		i := strings.Index(out, "PROBE accepted ")
+		return "accepted", strings.TrimSpace(out[i+len("PROBE accepted "):]), ""
+	}
+	return "crash", "", firstLines(out, 12)
+}
+
+func init() {
+	auxCommands["patprobe"] = func(args []string) int {
+		n, err := nfa.Parse(args[0])
+		_, err2 := rast.Parse(args[0])
+		if err != nil || err2 != nil {
+			fmt.Printf("PROBE rejected nfa=%v ast=%v\n", err, err2)
+			return 0
+		}
+		e := fromAutoDFA(n.ToDFA())
+		var b strings.Builder
+		for k := 0; k < 70; k++ {
+			if e.matches(strings.Repeat("a", k)) {
+				b.WriteByte('1')
+			} else {
+				b.WriteByte('0')
+			}
+		}
+		fmt.Println("PROBE accepted " + b.String())
 		return 0
 	}
 }
